@@ -195,13 +195,28 @@ def r30_cli_flow(ctx):
             else:
                 out.add("?" + U(v)[:40])
         return "|".join(sorted(out))
+    # (a method called at several places - one call per case, e.g. with
+    # None where there is no item - is wired by all its calls together)
+    by_method = {}
     for c in calls:
-        f = oper.methods.get(c.func.attr)
+        by_method.setdefault(c.func.attr, []).append(c)
+    for mname, cs in by_method.items():
+        f = oper.methods.get(mname)
         if f is None:
             continue
+        c = cs[0]
         params = f.call_params
-        bound = {k_: _origin(v_)
-                 for k_, v_ in ctx.bound_args(main, c).items()}
+        bound = {}
+        for c_ in cs:
+            for k_, v_ in ctx.bound_args(main, c_).items():
+                o_ = _origin(v_)
+                if o_:
+                    prev_ = bound.get(k_)
+                    bound[k_] = o_ if not prev_ or prev_ == o_ else \
+                        "|".join(sorted(set(prev_.split("|")) |
+                                        set(o_.split("|"))))
+                else:
+                    bound.setdefault(k_, "")
         exp = dict(zip(params, wiring[c.func.attr]))
         rep.check(bound == exp, rule,
                   ctx.fkey(main, None, "wiring:" + c.func.attr), main.loc(c),
@@ -580,9 +595,29 @@ def r30_cli_flow(ctx):
                         ok = True
     if lp:
         body = lp[0].body
+        from ..flow import single_def as _sd30
+
+        def _is_max(e):
+            if U(e) == "%s.max_results" % argsv:
+                return True
+            if isinstance(e, ast.Name):
+                v_ = _sd30(main.node, e.id)
+                return v_ is not None and U(v_) == "%s.max_results" % argsv
+            return False
+
+        def _stops_at_max(t):
+            """len(<collected>) >= max_results, written either way round"""
+            if not (isinstance(t, ast.Compare) and len(t.ops) == 1):
+                return False
+            a, op, b = t.left, t.ops[0], t.comparators[0]
+            if isinstance(op, ast.LtE):
+                a, b, op = b, a, ast.GtE()
+            counted = (isinstance(a, ast.Call) and U(a.func) == "len") or \
+                isinstance(a, ast.Name)      # len(collected) or a counter
+            return isinstance(op, ast.GtE) and counted and _is_max(b)
         ok = len(body) == 2 and isinstance(body[0], ast.Expr) and \
             ".append(" in U(body[0]) and isinstance(body[1], ast.If) and \
-            (">= %s.max_results" % argsv) in U(body[1].test) and isinstance(
+            _stops_at_max(body[1].test) and isinstance(
                 body[1].body[0], ast.Break)
         ok = ok and any("'\\n'.join(" in U(n) for n in walk_no_nested(
             main.node) if isinstance(n, ast.Assign))
